@@ -186,6 +186,8 @@ def universal(rng, nif=None, length=None, with_glob_changes=True):
     hostlen = rng.choice([0, 1, 6, 6, 31, 32, 33, 40])
     ops.append(glob_line(host=(''.join('%02x' % rng.randrange(1, 256) for _ in range(hostlen)) or '-'), hostrep=rng.choice(['copied', 'copied', 'full']),
                          icon=rng.choice(BLOBS), fname=rng.choice(BLOBS[:5] + ['4c004c00']), hwid=rng.choice(HWIDS)))
+    if rng.random() < 0.3:
+        ops.append('glob failrc=%d' % rng.choice([1, 22, -22, 1000]))      # a failing getter returns some other non-zero code than -1
     if rng.random() < 0.4:
         ops.append('glob emptyrep=block')       # an empty icon / name comes as a zero-length block, not as NULL
     pool = STATIONS[:4]
